@@ -47,3 +47,12 @@ claim("C18", "FsOps.tla / FsModel.tla state the storage contract (result-or-fail
       "across backends.", "TLC judgement of recorded backend operation sequences (FsModel) + three-way differential + FtpCore trace validation",
       note="Trusted base: TLC; a temporary directory on the sandbox file system stands for 'the real file system'; AsyncPathIO runs "
            "with an inline executor (no threads).")
+claim("C01", "Transfer.tla states what an upload (STOR/APPE, with or without restart offset) must leave in the file and what a download "
+      "from an offset must deliver; TLC judges every recorded transfer made by the real client streams against the real server "
+      "(sizes around block multiples, position-tagged and hostile byte values, offsets 0/inside/end/beyond, client chunkings, network "
+      "segmentations and latencies, EPSV/PASV, three backends, throttled), including visibility to another session, stat and listing "
+      "size after the 226. The same executions are validated against FtpCore, which accounts for every block written/read and admits "
+      "the 226 only after file and data socket are closed.", "TLC judgement of recorded client/server transfers (Transfer.tla) + FtpCore trace validation",
+      note="Trusted base: TLC; the simulated network delivers exactly the bytes written (FIFO per direction); content families are finite "
+           "(all 256 values once, CR/LF/NUL/IAC runs, position tags): the claim for 'any content' rests on the code not branching on "
+           "byte values, which the families are designed to attack.")
